@@ -888,6 +888,10 @@ class Unit:
             toks = tokenize(body)
             kws = [k for k, t in enumerate(toks) if t.kind == "ident" and t.text in ("for", "while", "loop")]
             # `for` in `impl X for Y` / HRTB does not occur in bodies we handle
+            if len(kws) != len(loops) and not opts.get("extra_loops"):
+                # a loop without invariants makes the proof incomplete by construction: undecided, never an alarm
+                raise ExtractError("anchor lost: %s has %d loops, the template annotates %d (loop structure changed)"
+                                   % (name, len(kws), len(loops)))
             for num, lp in loops.items():
                 if num < 1 or num > len(kws):
                     raise ExtractError("anchor lost: loop %d of %s (found %d loops)" % (num, name, len(kws)))
